@@ -151,11 +151,16 @@ func genG2(maxArgs int, emit func(tcase)) {
 		{a: arg{kind: "kw", name: "k", e: i(7)}, kws: []string{"k"}},
 		{a: arg{kind: "kw", name: "j", e: i(8)}, kws: []string{"j"}},
 		{a: arg{kind: "kw", name: "z", e: i(9)}, kws: []string{"z"}},
+		// undeclared keywords named like a variable of the defining scope / like a positional parameter:
+		// they must not become variables of the body
+		{a: arg{kind: "kw", name: "w", e: i(91)}, kws: []string{"w"}},
+		{a: arg{kind: "kw", name: "a", e: i(92)}, kws: []string{"a"}},
 		{a: arg{kind: "star", e: arr()}, npos: 0},
 		{a: arg{kind: "star", e: arr(i(5))}, npos: 1},
 		{a: arg{kind: "star", e: arr(i(5), i(6))}, npos: 2},
 		{a: arg{kind: "dstar", e: objLit{[]pair{{"k", i(70)}}}}, kws: []string{"k"}, last: true},
 		{a: arg{kind: "dstar", e: objLit{[]pair{{"j", i(80)}, {"k", i(70)}}}}, kws: []string{"j", "k"}, last: true},
+		{a: arg{kind: "dstar", e: objLit{[]pair{{"w", i(93)}, {"b", i(94)}}}}, kws: []string{"w", "b"}, last: true},
 	}
 	paramLists := [][]string{{}, {"a"}, {"a", "b"}, {"a", "b", "c"}}
 	kwLists := [][]kwparam{{}, {{"k", i(10)}}, {{"k", i(10)}, {"j", i(20)}}}
@@ -224,21 +229,22 @@ func genG2(maxArgs int, emit func(tcase)) {
 				if npos >= len(ps) {
 					probes = append(probes, arg{kind: "pos", e: argVar{"0"}})
 				}
-				for _, k := range []string{"k", "j", "z"} {
+				probes = append(probes, arg{kind: "pos", e: v("w")}) // free variable of the defining scope
+				for _, k := range []string{"k", "j", "z", "w", "a", "b"} {
 					if passed[k] {
 						probes = append(probes, arg{kind: "pos", e: argVar{k}})
 					}
 				}
 				probes = append(probes, arg{kind: "pos", e: argVar{"_"}})
 				f := funcLit{params: ps, kw: kws, body: []node{arrLit{probes}}}
-				prog := []node{set("f", f), call{callee: v("f"), args: args}}
+				prog := []node{set("w", i(1000)), set("f", f), call{callee: v("f"), args: args}}
 				nt := npos != len(ps) || len(passed) > 0
 				emit(mk("G2/binding", nt, prog))
 				// an undefined \name must be a NameErr (exactly the arguments received)
 				for _, k := range kws {
 					if !passed[k.name] && len(al) <= 2 {
 						f2 := funcLit{params: ps, kw: kws, body: []node{argVar{k.name}}}
-						emit(mk("G2/kwarg-var-absent", true, []node{set("f", f2), call{callee: v("f"), args: args}}))
+						emit(mk("G2/kwarg-var-absent", true, []node{set("w", i(1000)), set("f", f2), call{callee: v("f"), args: args}}))
 					}
 				}
 			}
